@@ -111,7 +111,13 @@ Section P.
     (acct_lag_ok threshold (c_acct s) -> acct_lag_ok threshold (c_acct s')).
 
   Lemma ext_refl s : ext s s [].
-  Proof. unfold ext. rewrite app_nil_r. cbn. repeat split; auto. lia. Qed.
+  Proof. unfold ext. split; [now rewrite app_nil_r|]. split; [unfold lenN; cbn; lia|auto]. Qed.
+
+  Lemma ext_same s s' : c_out s' = c_out s -> c_acct s' = c_acct s -> ext s s' [].
+  Proof.
+    intros H1 H2. unfold ext. rewrite H1, H2. split; [now rewrite app_nil_r|].
+    split; [unfold lenN; cbn; lia|auto].
+  Qed.
 
   Lemma copy_iter_spec cancelled r ws s :
     match copy_iter cancelled r ws s with
@@ -134,7 +140,8 @@ Section P.
       set (s' := {| c_out := c_out s ++ firstn (N.to_nat nw) data; c_acct := acct_add threshold (c_acct s) nw;
                     c_ck := c_ck s; c_nrd := c_nrd s; c_nwr := c_nwr s + 1 |}).
       assert (Hext : ext s s' (firstn (N.to_nat nw) data)).
-      { unfold ext, s'; cbn. rewrite acct_add_total, Hlen. repeat split; auto. apply acct_add_lag. }
+      { unfold ext, s'; cbn [c_out c_acct]. split; [reflexivity|].
+        split; [rewrite acct_add_total, Hlen; reflexivity|apply acct_add_lag]. }
       destruct err.
       { exists (firstn (N.to_nat nw) data), (skipn (N.to_nat nw) data). split; [exact Hext|]. split; [exact Hsplit|discriminate]. }
       destruct (N.eqb_spec nw (lenN data)) as [Heq|Hne]; cbn [negb].
@@ -148,15 +155,17 @@ Section P.
 
   Lemma flush_ext s s' d : ext s s' d -> ext s (cst_flush s') d.
   Proof.
-    unfold ext, cst_flush; cbn. intros (H1 & H2 & H3). repeat split; auto.
-    - destruct (H3 H) as [Hok _]. apply acct_flush_spec. exact Hok.
-    - intros _. lia.
+    unfold ext, cst_flush; cbn [c_out c_acct]. intros (H1 & H2 & H3).
+    split; [exact H1|]. split; [cbn; exact H2|].
+    intros H. destruct (H3 H) as [Hok _]. destruct (acct_flush_spec _ Hok) as (F1 & F2 & F3 & F4).
+    split; [exact F4|]. intros Hth. rewrite F3. exact Hth.
   Qed.
 
   Lemma ext_trans s1 s2 s3 d1 d2 : ext s1 s2 d1 -> ext s2 s3 d2 -> ext s1 s3 (d1 ++ d2).
   Proof.
-    unfold ext. intros (A1 & A2 & A3) (B1 & B2 & B3). rewrite B1, A1, B2, A2, lenN_app, app_assoc.
-    repeat split; auto. lia.
+    unfold ext. intros (A1 & A2 & A3) (B1 & B2 & B3).
+    split; [rewrite B1, A1, app_assoc; reflexivity|].
+    split; [rewrite B2, A2, lenN_app; lia|]. intros H. apply B3, A3, H.
   Qed.
 
   (* (1) delivered_is_prefix, sequential form, with exact accounting *)
@@ -169,12 +178,12 @@ Section P.
     - destruct ((interval <=? c_ck s + 1) && cancelled).
       + inversion H; subst. exists [], []. split; [apply flush_ext, ext_refl|]. cbn. auto.
       + inversion H; subst. exists [], []. split; [|cbn; auto].
-        apply flush_ext. unfold ext; cbn. rewrite app_nil_r. repeat split; auto. lia.
+        apply flush_ext. apply ext_same; reflexivity.
     - destruct ((interval <=? c_ck s + 1) && cancelled).
       { inversion H; subst. exists [], (readable (r :: rs)). split; [apply flush_ext, ext_refl|]. cbn. split; [reflexivity|]. split; [reflexivity|discriminate]. }
       set (s1 := {| c_out := c_out s; c_acct := c_acct s; c_ck := if interval <=? c_ck s + 1 then 0 else c_ck s + 1;
                     c_nrd := c_nrd s + 1; c_nwr := c_nwr s |}) in *.
-      assert (H01 : ext s s1 []) by (unfold ext, s1; cbn; rewrite app_nil_r; repeat split; auto; lia).
+      assert (H01 : ext s s1 []) by (apply ext_same; reflexivity).
       pose proof (copy_iter_spec cancelled r ws s1) as Hit.
       destruct (copy_iter cancelled r ws s1) as [s2 ws2|x2 s2].
       + destruct Hit as [Hext Hne].
@@ -205,7 +214,7 @@ Section P.
       + destruct (r_end r) eqn:Ee.
         * destruct (IH _ _ _ _ Hlim Hws Hrs' H) as [-> Ho]. split; [reflexivity|]. rewrite Ho. cbn [readable c_out]. now rewrite Ed, Ee.
         * destruct (IH _ _ _ _ Hlim Hws Hrs' H) as [-> Ho]. split; [reflexivity|]. rewrite Ho. cbn [readable c_out]. now rewrite Ed, Ee.
-        * inversion H; subst. split; [reflexivity|]. cbn [readable cst_flush c_out]. rewrite Ed, Ee. reflexivity.
+        * inversion H; subst. split; [reflexivity|]. cbn [readable cst_flush c_out]. rewrite Ed, Ee. cbn [app]. now rewrite app_nil_r.
       + rewrite <- Ed in *. rewrite Hlim in H. cbn [negb] in H.
         destruct (do_write_full B ws (r_data r) Hws Hr) as (ws' & Ew & Hws').
         rewrite Ew in H. rewrite N.eqb_refl in H. cbn [negb] in H.
@@ -264,25 +273,25 @@ Section P.
     destruct (b_pc t) as [|data e|x|x] eqn:Epc.
     - (* BRead *)
       destruct (s_closed sh).
-      { inversion H; subst. split; [reflexivity|]. split; [|reflexivity].
+      { inversion H; subst t' sh'. split; [reflexivity|]. split; [|reflexivity].
         apply finish_TI; auto; [eexists; exact Hpc|discriminate]. }
       destruct (b_rs t) as [|r rs'] eqn:Ers.
-      { inversion H; subst. split; [reflexivity|]. split; [|reflexivity].
+      { inversion H; subst t' sh'. split; [reflexivity|]. split; [|reflexivity].
         cbn [readable] in Hpc. rewrite app_nil_r in Hpc.
         apply finish_TI; auto. exists []. now rewrite app_nil_r. }
       cbn [readable] in Hpc.
       destruct (r_data r) as [|b bs] eqn:Ed.
-      + destruct (r_end r) eqn:Ee; inversion H; subst; (split; [reflexivity|]); (split; [|reflexivity]).
+      + destruct (r_end r) eqn:Ee; inversion H; subst t' sh'; (split; [reflexivity|]); (split; [|reflexivity]).
         * unfold TI, b_set. cbn [b_acct b_pc b_rs]. auto.
         * unfold TI, b_set. cbn [b_acct b_pc b_rs]. auto.
         * cbn [app] in Hpc. rewrite app_nil_r in Hpc. apply finish_TI; auto. exists []. now rewrite app_nil_r.
-      + destruct (limiter_ok v lim false (lenN (b :: bs))); cbn [negb] in H; inversion H; subst;
+      + destruct (limiter_ok v lim false (lenN (b :: bs))); cbn [negb] in H; inversion H; subst t' sh';
           (split; [reflexivity|]); (split; [|reflexivity]).
         * unfold TI, b_set. cbn [b_acct b_pc b_rs]. auto.
         * apply finish_TI; auto; [eexists; exact Hpc|discriminate].
     - (* BWrite *)
       destruct (s_closed sh).
-      { inversion H; subst. split; [reflexivity|]. split; [|reflexivity].
+      { inversion H; subst t' sh'. split; [reflexivity|]. split; [|reflexivity].
         apply finish_TI; auto; [eexists; exact Hpc|discriminate]. }
       destruct (do_write (b_ws t) data) as [[nw err] ws'] eqn:Ew.
       pose proof (do_write_le _ _ _ _ _ Ew) as Hle.
@@ -294,10 +303,10 @@ Section P.
       assert (Hpre : exists r0, all = (o ++ d) ++ r0).
       { eexists. rewrite Hpc, Hsplit, <- !app_assoc. reflexivity. }
       destruct err.
-      { inversion H; subst. split; [reflexivity|]. rewrite sh_out_deliver_same, sh_out_deliver_other. split; [|reflexivity].
+      { inversion H; subst t' sh'. split; [reflexivity|]. rewrite sh_out_deliver_same, sh_out_deliver_other. split; [|reflexivity].
         apply finish_TI; auto. discriminate. }
       destruct (N.eqb_spec nw (lenN data)) as [Heq|Hne]; cbn [negb] in H.
-      2:{ inversion H; subst. split; [reflexivity|]. rewrite sh_out_deliver_same, sh_out_deliver_other. split; [|reflexivity].
+      2:{ inversion H; subst t' sh'. split; [reflexivity|]. rewrite sh_out_deliver_same, sh_out_deliver_other. split; [|reflexivity].
           apply finish_TI; auto. discriminate. }
       assert (Hd : d = data) by (apply firstn_full; exact Heq).
       destruct e; inversion H; subst t' sh'; (split; [reflexivity|]);
@@ -308,12 +317,12 @@ Section P.
         rewrite Hpc, Hd, app_assoc. reflexivity.
       + apply finish_TI; auto. intros _. rewrite Hpc, Hd, app_nil_r. reflexivity.
     - (* BFinish *)
-      inversion H; subst. split; [reflexivity|].
+      inversion H; subst t' sh'. split; [reflexivity|].
       split; [|destruct (s_closed sh), (b_dir t); reflexivity].
       replace (sh_out (b_dir t) (if s_closed sh then sh else _)) with o by (destruct (s_closed sh), (b_dir t); reflexivity).
       unfold TI, b_set. cbn [b_acct b_pc]. auto.
     - (* BDone *)
-      inversion H; subst. split; [reflexivity|]. split; [|reflexivity].
+      inversion H; subst t' sh'. split; [reflexivity|]. split; [|reflexivity].
       unfold TI. rewrite Epc. auto.
   Qed.
 
@@ -329,20 +338,20 @@ Section P.
     destruct (b_pc t) as [|data e|x|x] eqn:Epc.
     - destruct (s_closed sh) eqn:Ec.
       { inversion H; subst. split; [split; cbn; [intros x [E|E] _; [exact Ec|discriminate]|discriminate]|].
-        split; [exact Hcl|]. split; [auto|]. split; [congruence|discriminate]. }
+        split; [exact Hcl|]. split; [intros; congruence|]. split; [intros; congruence|discriminate]. }
       assert (Hgen : forall x rs ws a, closed_kind x = false -> P1 (b_finish t x rs ws a) sh).
       { intros x rs ws a Hx. split; cbn; [intros y [E|E]; inversion E; subst; congruence|discriminate]. }
       assert (Hrd : forall rs ws a, P1 (b_set t BRead rs ws a) sh) by (intros; split; cbn; [intros y [E|E]; discriminate|discriminate]).
       assert (Hwr : forall dd ee rs ws a, P1 (b_set t (BWrite dd ee) rs ws a) sh) by (intros; split; cbn; [intros y [E|E]; discriminate|discriminate]).
       destruct (b_rs t) as [|r rs'].
-      { inversion H; subst. split; [apply Hgen; reflexivity|]. split; [exact Hcl|]. split; [auto|]. split; [congruence|discriminate]. }
+      { inversion H; subst. split; [apply Hgen; reflexivity|]. split; [exact Hcl|]. split; [intros; congruence|]. split; [intros; congruence|discriminate]. }
       destruct (r_data r) as [|b bs].
-      + destruct (r_end r); inversion H; subst; (split; [auto|]); (split; [exact Hcl|]); (split; [auto|]); (split; [congruence|discriminate]).
+      + destruct (r_end r); inversion H; subst; (split; [auto|]); (split; [exact Hcl|]); (split; [intros; congruence|]); (split; [intros; congruence|discriminate]).
       + destruct (limiter_ok v lim false (lenN (b :: bs))); cbn [negb] in H; inversion H; subst;
-          (split; [auto|]); (split; [exact Hcl|]); (split; [auto|]); (split; [congruence|discriminate]).
+          (split; [auto|]); (split; [exact Hcl|]); (split; [intros; congruence|]); (split; [intros; congruence|discriminate]).
     - destruct (s_closed sh) eqn:Ec.
       { inversion H; subst. split; [split; cbn; [intros x [E|E] _; [exact Ec|discriminate]|discriminate]|].
-        split; [exact Hcl|]. split; [auto|]. split; [congruence|discriminate]. }
+        split; [exact Hcl|]. split; [intros; congruence|]. split; [intros; congruence|discriminate]. }
       destruct (do_write (b_ws t) data) as [[nw err] ws'].
       destruct (sh_closed_deliver (b_dir t) (firstn (N.to_nat nw) data) sh) as [Hc1 Hc2].
       assert (Hcl' : CL (sh_deliver (b_dir t) (firstn (N.to_nat nw) data) sh)) by (unfold CL; rewrite Hc1, Hc2; exact Hcl).
@@ -352,14 +361,14 @@ Section P.
       assert (Hrd : forall rs ws a, P1 (b_set t BRead rs ws a) (sh_deliver (b_dir t) (firstn (N.to_nat nw) data) sh))
         by (intros; split; cbn; [intros y [E|E]; discriminate|discriminate]).
       destruct err; [|destruct (negb (nw =? lenN data)); [|destruct e]]; inversion H; subst;
-        (split; [auto|]); (split; [exact Hcl'|]); (split; [congruence|]); (split; [congruence|discriminate]).
+        (split; [auto|]); (split; [exact Hcl'|]); (split; [intros; congruence|]); (split; [intros; congruence|discriminate]).
     - inversion H; subst. destruct (s_closed sh) eqn:Ec.
       + split; [split; cbn; [intros y _ _; exact Ec|intros y _; exact Ec]|].
-        split; [exact Hcl|]. split; [auto|]. split; [congruence|discriminate].
+        split; [exact Hcl|]. split; [intros; congruence|]. split; [intros; congruence|discriminate].
       + split; [split; cbn; auto|]. split; [left; cbn; destruct Hcl as [[Hc _]|[_ Hn]]; [congruence|rewrite Hn; auto]|].
         split; [auto|]. split; [|discriminate]. intros _ _. exists x. cbn. split; [reflexivity|].
-        destruct (closed_kind x) eqn:Ek; [|reflexivity]. rewrite (Hk x (or_introl eq_refl) Ek) in Ec. discriminate.
-    - inversion H; subst. split; [split; assumption|]. split; [exact Hcl|]. split; [auto|]. split; [congruence|].
+        destruct (closed_kind x) eqn:Ek; [|reflexivity]. pose proof (Hk x (or_introl eq_refl) Ek) as Hff. discriminate Hff.
+    - inversion H; subst. split; [unfold P1; rewrite Epc; split; assumption|]. split; [exact Hcl|]. split; [auto|]. split; [intros; congruence|].
       intros y E. rewrite Epc. exact E.
   Qed.
 
@@ -401,7 +410,8 @@ Section P.
         intros Hc'. destruct (s_closed sh) eqn:Ec.
         + destruct (Hex eq_refl) as (x & [E|E] & Hx); exists x; (split; [|exact Hx]); [left; exact E|right; apply Hdone; exact E].
         + destruct (Hnew eq_refl Hc') as (x & E & Hx). exists x. split; [right; exact E|exact Hx].
-      - destruct i; cbn [nth_error]; exists t0, t1; cbn [fst snd]; repeat (split; [assumption|]); try reflexivity; assumption.
+      - assert (En : nth_error (@nil bthread) i = None) by (destruct i; reflexivity). rewrite En.
+        exists t0, t1. cbn [fst snd]. split; [reflexivity|]. repeat (split; [assumption|]). assumption.
     Qed.
   End G.
 
@@ -517,7 +527,7 @@ Lemma pinned_limiter_drops_refuted :
     c_out (snd (copy_loop Pinned 1048576 10000 (Some 8192) false rs [] (cst0))) = [] /\
     fst (copy_loop Pinned 1048576 10000 (Some 8192) false rs [] (cst0)) = XLimiter.
 Proof.
-  exists [{| r_data := repeat 7 20000; r_end := RNone |}].
+  exists [{| r_data := repeat 7 (N.to_nat 20000); r_end := RNone |}].
   split; [repeat constructor; vm_compute; discriminate|].
   split; [vm_compute; discriminate|].
   split; vm_compute; reflexivity.
@@ -525,15 +535,15 @@ Qed.
 
 (* the same input through the repaired loop is delivered completely *)
 Lemma sliced_limiter_delivers_witness :
-  let rs := [{| r_data := repeat 7 20000; r_end := RNone |}] in
+  let rs := [{| r_data := repeat 7 (N.to_nat 20000); r_end := RNone |}] in
   copy_loop Sliced 1048576 10000 (Some 8192) false rs [] cst0
-  = (XReadEnd, {| c_out := repeat 7 20000; c_acct := {| a_total := 20000; a_batch := 0; a_counter := 20000 |};
+  = (XReadEnd, {| c_out := repeat 7 (N.to_nat 20000); c_acct := {| a_total := 20000; a_batch := 0; a_counter := 20000 |};
                   c_ck := 2; c_nrd := 2; c_nwr := 1 |}).
 Proof. vm_compute. reflexivity. Qed.
 
 (* the bridge closes although neither end closed: pinned model, any schedule that runs direction 0 three times *)
 Lemma pinned_bridge_closes_without_cause :
-  let s := bridge_run Pinned 1048576 (Some 8192) [{| r_data := repeat 7 20000; r_end := RNone |}] [] [] [] [0; 0; 0]%nat in
+  let s := bridge_run Pinned 1048576 (Some 8192) [{| r_data := repeat 7 (N.to_nat 20000); r_end := RNone |}] [] [] [] [0; 0; 0]%nat in
   s_closed (fst s) = true /\ s_out0 (fst s) = [] /\ map (fun t => b_done t) (snd s) = [Some XLimiter; None].
 Proof. vm_compute. repeat split; reflexivity. Qed.
 Close Scope N_scope.
